@@ -298,7 +298,9 @@ BuildC20(d) ==
                      \o ConcatAll([q \in 1..Len(used) |->
                                      <<[scbase EXCEPT !.k = "met", !.idx = used[q], !.fvak = IF q % 2 = 0 THEN "none" ELSE "frame",
                                                       !.frame = IF q % 2 = 0 THEN base.frame ELSE scfr]>>])
-  IN [skip |-> FALSE, M |-> M, MS |-> sc.M, calls |-> model \o foreign \o mets \o rxns \o scaled]
+  \* compartments: the last metabolite is internal, so its boundary reactions are demands / sinks, not
+  \* exchanges (model.boundary # model.exchanges); summaries are about every boundary reaction
+  IN [skip |-> FALSE, M |-> WithComp(M), MS |-> WithComp(sc.M), calls |-> model \o foreign \o mets \o rxns \o scaled]
 
 Build(d) == CASE Prop = "C09" -> BuildC09(d)
               [] Prop = "C06" -> BuildC06(d)
